@@ -27,7 +27,7 @@ def run(ctx):
              "and rewards from {0,-5,1,7,99,100,101,12345,1e9+7,1e12-1} through the real NormalizeRewardDelegators/SplitNodeRewards; (b) histories executed 5 times in fresh processes: "
              "generic (chain.World.GenBlock, 4-11 blocks; block 1 runs every module's ConvertState in map order), delegators (proposer edit-stakes with 4 reward delegators without "
              "accounts, then fee-paying blocks: the proposer reward is split by Keeper.blockReward), genesismaps (6 signing infos / missed-block arrays for addresses without a validator "
-             "in the genesis maps), unstakequeue (four nodes begin unstaking in one session, one is slashed for a double sign while unstaking), and — thorough tier and search stage only — unjail (JailedUntil 15 s after the check starts, block time >= JailedUntil, half of the runs start after it has passed); "
+             "in the genesis maps), unstakequeue (five consensus validators, four begin unstaking in one session and leave the validator set in one block — single-run spec: each leaver exactly once with power 0, no duplicate updates —, one is slashed for a double sign while unstaking), and — thorough tier and search stage only — unjail (JailedUntil 15 s after the check starts, block time >= JailedUntil, half of the runs start after it has passed); "
              "non-trivial = non-empty delegator map / every block line; distinct = distinct trace line")
     ctx.trust("repeat runs differ only in process (Go map seeds, goroutine scheduling) and, for the unjail history, start time")
     ctx.assume("5 executions per history sample the runtime's choices; they do not enumerate them")
